@@ -218,9 +218,13 @@ static char *led_readchar(int c, int kmap)
 			return NULL;
 		if (c1 == TK_CTL('k'))
 			return "";
+		if ((c1 & 0xc0) == 0xc0)	/* not a digraph; the character itself */
+			return led_readchar(c1, kmap);
 		c2 = term_read();
 		if (TK_INT(c2))
 			return NULL;
+		if ((c2 & 0xc0) == 0xc0)
+			return led_readchar(c2, kmap);
 		return conf_digraph(c1, c2);
 	}
 	if ((c & 0xc0) == 0xc0) {	/* utf-8 character */
